@@ -176,6 +176,9 @@ def index_assignments(fn):
         if p is None:
             continue
         comps = [x for x in p if x != "$"]
+        if len(comps) == 2 and comps[0] == "this":
+            # a member of the block object itself (bookkeeping), not the index field of an item that gets stored
+            continue
         if comps and comps[-1].endswith("_index") and len(comps) >= 2:
             out.append((comps[-1], rhs, n))
     return out
